@@ -54,7 +54,10 @@ class Prov:
             self.binders[tgt[1]] = (it, path)
         elif op(tgt) == "tuple":
             for i, x in enumerate(tgt[1]):
-                self.add_binding(x, it, path + (i,))
+                if op(x) == "star":
+                    self.add_binding(x[1], it, path + (("tail", i),))
+                else:
+                    self.add_binding(x, it, path + (i,))
         self.scan(it)
 
     # -- alternatives a value may equal ------------------------------------------------
@@ -66,6 +69,11 @@ class Prov:
             alts = self.elems(it, depth + 1)
             for i in path:
                 nxt = []
+                if isinstance(i, tuple):  # ('tail', k): the rest of a sequence from position k
+                    for a in alts:
+                        nxt.append(("slice", a, ("const", i[1]), NONE, NONE))
+                    alts = nxt
+                    continue
                 for a in alts:
                     if op(a) == "T" and i < len(a[1]):
                         nxt.extend(a[1][i])
@@ -113,6 +121,10 @@ class Prov:
             if op(f) == "builtin" and name == "zip":
                 return [("T", tuple(self.elems(a, depth + 1) for a in args))]
             if op(f) == "attr" and name == "items" and not args:
+                if op(f[1]) == "comp" and f[1][1] == "dict":
+                    for tgt, src, _ in f[1][3]:
+                        self.add_binding(tgt, src)
+                    return [("T", (self.vals(f[1][2][1], depth + 1), self.vals(f[1][2][2], depth + 1)))]
                 return [("T", ([("keyof", f[1])], [("valof", f[1])]))]
             if op(f) == "attr" and name == "values" and not args:
                 return [("valof", f[1])]
